@@ -101,7 +101,51 @@ def case(args):
     return (scenario, annotated, strategy, extra, scaled), errs, n
 
 
+def extra_world(name):
+    """hand-built annotation shapes the MIX family does not hold"""
+    from vlib import worlds as W, syn
+    w = W.base_world(1, 8000)
+    t1 = [[1001, 1200], [1501, 1700], [2001, 2200], [2501, 2800]]
+    if name == "monoexon-reference-first":
+        # an unspliced reference transcript that precedes the spliced one in its gene; reads with exactly T1's intron chain whose first
+        # exon starts 600 bp upstream of T1 (they are not assigned to T1 by their ends - and they are not a novel isoform either)
+        w["genes"].append({"id": "G1", "chr": "chr1", "strand": "+", "transcripts": [{"id": "T0", "exons": [[991, 1150]]}, {"id": "T1", "exons": t1}]})
+        syn.plant_for_transcripts(w)
+        for i in range(6):
+            w["reads"].append(W.read_of("up%d" % i, "chr1", [[401, 1200]] + t1[1:]))
+        for i in range(3):
+            w["reads"].append(W.read_of("fl%d" % i, "chr1", t1))
+    elif name == "monoexon-reference-first-minus":
+        m = [[8001 - e, 8001 - s_] for s_, e in reversed(t1)]
+        w["genes"].append({"id": "G1", "chr": "chr1", "strand": "-", "transcripts": [{"id": "T0", "exons": [[5100, 5400]]}, {"id": "T1", "exons": m}]})
+        syn.plant_for_transcripts(w)
+        for i in range(6):
+            w["reads"].append(W.read_of("up%d" % i, "chr1", m[:-1] + [[m[-1][0], m[-1][1] + 600]], strand="-"))
+    return w
+
+
+def extra_case(args):
+    name, strategy, scratch = args
+    from vlib import syn, run
+    w = extra_world(name)
+    d = os.path.join(scratch, "c04x_%s_%s" % (name, strategy))
+    shutil.rmtree(d, ignore_errors=True)
+    paths = syn.materialise(w, d)
+    out = os.path.join(d, "out")
+    rc = run.run_isoquant(run.base_argv(paths, out, extra=["--model_construction_strategy", strategy]), paths["home"], os.path.join(d, "o.txt"))
+    if rc != 0:
+        errs, n = [("run-failed", "exit %d: %s" % (rc, open(os.path.join(d, "o.txt")).read()[-300:]))], 0
+    else:
+        errs, n = evaluate(out, w, 1)
+    shutil.rmtree(d, ignore_errors=True)
+    return (name, strategy), errs, n
+
+
 def run(ctx):
+    for key, errs, n in core.pmap(extra_case, [(nm, st, ctx.scratch) for nm in ("monoexon-reference-first", "monoexon-reference-first-minus")
+                                               for st in ("default_ont", "all")]):
+        for k, msg in errs:
+            ctx.violation(k + ":" + key[0], "world %s strategy %s: %s" % (key + (msg,)), {"extra_world": key[0], "strategy": key[1]})
     jobs = c03.job_list(ctx)
     ctx.rng.shuffle(jobs)
     nnovel = 0
@@ -134,5 +178,8 @@ def run(ctx):
 
 
 def replay(ctx, c):
+    if "extra_world" in c:
+        key, errs, n = extra_case((c["extra_world"], c["strategy"], ctx.scratch))
+        return errs[0][1] if errs else None
     key, errs, n = case((tuple(tuple(x) for x in c["scenario"]), c["annotated"], c["strategy"], tuple(c["extra"]), c["scaled"], ctx.scratch))
     return errs[0][1] if errs else None
